@@ -204,8 +204,9 @@ def main(tier, seed):
 
 def classify(shapes, kind="pair"):
     s = "|".join(shapes)
-    if kind == "eq" and sorted(x.replace("\"'", "'").replace("'\"", "'") for x in shapes) == ["Term('b')", "Term('b')"] and shapes[0] != shapes[1]:
-        # the same atom written with and without quotes: equal in the standard order (and unifiable), but == says no
+    unq = [x.replace("\"'", "'").replace("'\"", "'") for x in shapes]
+    if kind == "eq" and len(shapes) == 2 and unq[0] == unq[1] and shapes[0] != shapes[1]:
+        # the same atom / functor written with and without quotes: equal in the standard order (and unifiable), but == says no
         return "==:quoted-atom-vs-atom"
     if "\"'" in s:
         return "quoted-atom-ordered-by-its-quote"
